@@ -19,9 +19,17 @@ class Model:
         """interactive: one line in, one line out"""
         if self.p is None:
             self.start()
+        if getattr(self, "inflight", None) is not None:
+            # an earlier ask() was interrupted between its write and its read (a watchdog alarm fired inside the
+            # implementation call that was talking to the target): its answer is still in the pipe — drop it
+            self.p.stdout.readline()
+            self.resyncs = getattr(self, "resyncs", []) + [self.inflight[:120]]
+            self.inflight = None
+        self.inflight = line
         self.p.stdin.write(line.encode() + b"\n")
         self.p.stdin.flush()
         out = self.p.stdout.readline()
+        self.inflight = None
         if not out:
             raise RuntimeError("pymodel died on: " + line[:200])
         return out.decode().rstrip("\n")
